@@ -48,3 +48,9 @@ arr_cmplx half_turn(const arr_cmplx& x) {
     return rotate_pow2(x, x.size() / 2);
 }
 }   // namespace dsplib
+namespace dsplib {
+constexpr int TABLE_SIZE = 256;
+int table_slot(int i) {
+    return i & (TABLE_SIZE - 1);
+}
+}   // namespace dsplib
